@@ -75,8 +75,10 @@ func (g *wgen) run(seed uint64, proc, idx int) proto.RunRec {
 		nt = 3
 	case x < 80:
 		nt = 4
-	default:
+	case x < 97:
 		nt = 5 + r.n(4)
+	default:
+		nt = 9 + r.n(8) // "any number of goroutines": occasionally many callers, one call each
 	}
 	// pool of call signatures: few keys, neighbouring
 	var pool []int
@@ -103,11 +105,14 @@ func (g *wgen) run(seed uint64, proc, idx int) proto.RunRec {
 	// operations
 	id := 0
 	var est int64
-	uses := map[int]int{}
+	uses := map[string]int{} // by list content: slices are shared across different functions too
 	for t := 0; t < nt; t++ {
 		no := 1 + r.n(6)
 		if nt > 4 {
 			no = 1 + r.n(3)
+		}
+		if nt > 8 {
+			no = 1
 		}
 		var tr proto.TaskRec
 		prev := -1
@@ -119,7 +124,9 @@ func (g *wgen) run(seed uint64, proc, idx int) proto.RunRec {
 			prev = callID
 			op := g.mkOp(id, callID)
 			id++
-			uses[callID]++
+			if c := g.c.Calls[callID]; hasList(c.Fn) && !c.NilList {
+				uses[listKey(c.List)]++
+			}
 			if g.e != nil {
 				est += g.e.Steps[callID]
 			}
@@ -128,15 +135,15 @@ func (g *wgen) run(seed uint64, proc, idx int) proto.RunRec {
 		rec.Tasks = append(rec.Tasks, tr)
 	}
 	// sharing of argument slices, spare capacity, scribbling
-	shareGroup := map[int]int{}
+	shareGroup := map[string]int{}
 	ngroups := 0
 	for t := range rec.Tasks {
 		for k := range rec.Tasks[t].Ops {
 			op := &rec.Tasks[t].Ops[k]
 			if hasList(op.Fn) && !op.NilList {
 				op.Spare = []int{0, 0, 1, 2, 4}[r.n(5)]
-				if uses[op.Call] > 1 {
-					gid, ok := shareGroup[op.Call]
+				if lk := listKey(op.List); uses[lk] > 1 {
+					gid, ok := shareGroup[lk]
 					if !ok {
 						if r.p(0.6) {
 							gid = ngroups
@@ -144,7 +151,7 @@ func (g *wgen) run(seed uint64, proc, idx int) proto.RunRec {
 						} else {
 							gid = -1
 						}
-						shareGroup[op.Call] = gid
+						shareGroup[lk] = gid
 					}
 					op.Share = gid
 				}
@@ -249,3 +256,5 @@ func (g *wgen) run(seed uint64, proc, idx int) proto.RunRec {
 	rec.First = -1
 	return rec
 }
+
+func listKey(l []string) string { return strings.Join(l, "\x00") + "\x01" }
